@@ -126,6 +126,15 @@ def cases(tier, rng):
         ops = [["place", C_E, 4], ["place", [["obj", "D", 5]], 4], ["rest", 8], ["set_item", 0, None], ["set_item", 2, [["bare", "G"]]],
                ["set_item", 1, None]]
         yield Case("bar.run", ["C", m[0], m[1], ops], "content/rest-assigned", kind=("setrest", m))
+    # the same through indices counted from the end (b[-1] is the last entry, for reading and for assigning)
+    for m in METERS:
+        for assigns in ([(-1, None), (-3, [["G", 4]]), (-2, None)], [(-3, None), (2, [["G", 4]]), (-1, [["G", 4]])]):
+            ops = [["place", C_E, 4], ["place", [["obj", "D", 5]], 4], ["rest", 8]] + \
+                  [["set_item", i, None if x is None else [["bare", "G"]]] for i, x in assigns]
+            yield Case("bar.run", ["C", m[0], m[1], ops], "content/assigned-from-the-end", model=False, kind=("setrest", m, tuple(assigns)))
+    # a note container handed over as such is the entry's content, as given
+    for how in ("place", "plus"):
+        yield Case("bar.run", ["C", 4, 4, [["place", C_E, 4], ["place_same", 4, how]]], "content/container-as-given", model=False, kind=("same",))
     for cnt, unit in ((6, 8), (3, 4), (4, 4), (5, 16), (2, 2)):
         yield Case("bar.meter_list", [cnt, unit, [["plus", C_E], ["place", C_E, unit], ["plus", C_E], ["rest", unit], ["plus", C_E], ["plus", C_E], ["plus", C_E]]],
                    "set_meter/from-list", model=False, kind=("meter_list",))
@@ -333,7 +342,7 @@ def oracle(c, obs):
         if len(before) < 3:
             return None
         want = [list(e) for e in before]
-        for i, (idx, new) in enumerate([(0, None), (2, [["G", 4]]), (1, None)]):
+        for i, (idx, new) in enumerate(kind[2] if len(kind) > 2 else [(0, None), (2, [["G", 4]]), (1, None)]):
             st = obs[3 + i]
             if isinstance(st, Err):
                 return "assigning content to an existing index raised"
@@ -343,6 +352,15 @@ def oracle(c, obs):
                     "a rest" if new is None else "notes", idx)
             if st[1][:4] != obs[2][1][:4]:
                 return "assigning content changed the bar's time accounting"
+        return None
+    if kind[0] == "same":
+        if isinstance(obs, Err) or isinstance(obs[1], Err) or isinstance(obs[1][0], Err):
+            return "placing a note container raised"
+        (r, same), st = obs[1]
+        if r is not True:
+            return "a quarter-note container was refused in a 4/4 bar holding one quarter"
+        if not same or st[4][-1][2] != [["C#", 4], ["Db", 4]]:
+            return "a note container handed to the bar is not the entry's content as given (got %s)" % (st[4][-1][2],)
         return None
     if kind[0] == "placeat":
         if isinstance(obs, Err):
